@@ -311,7 +311,7 @@ def trace_validation(ctx, sftp_io, quick):
     from its own task, i.e. out of order) are validated by TLC against
     SftpIO.tla (specs/SftpIO/SftpIOTrace.tla)."""
     import copy
-    n = 56 if quick else 1200
+    n = 48 if quick else 1200
     recs = []
     stats = {'out_of_order': 0, 'batches>1': 0, 'untraced': 0, 'skipped': 0}
     for i in range(n):
@@ -589,7 +589,7 @@ def main(ctx):
         return mc(name, workers=2 if quick else 4, invs=invs, **kw)
 
     # ---- 2. behaviours for the replay (-simulate; num is per worker) -------
-    k = 1 if quick else 8
+    k = 0.8 if quick else 8
     COPY = '{"get", "put", "copy"}'
     BIG = dict(Blocks='{2, 3, 4}', MaxReqs='{2, 3}', MaxAns=3,
                AllowErr='FALSE')
@@ -614,7 +614,8 @@ def main(ctx):
 
     def one_sim(item):
         i, (name, num, kw) = item
-        return sim(name, num, 24, ctx.seed * 100 + 17 + i, workers=2, **kw)
+        return sim(name, int(num), 24, ctx.seed * 100 + 17 + i, workers=2,
+                   **kw)
 
     with concurrent.futures.ThreadPoolExecutor(max_workers=5) as ex:
         # the tree-walking layer (specs/SftpIO/SftpTree.tla); longest job first
@@ -628,7 +629,7 @@ def main(ctx):
                               SkipErrors='TRUE'),
             'emit': ex.submit(tree_tlc, 'emit', ['Table'], workers=1,
                               seed=ctx.seed + 5, Emit='TRUE',
-                              NTrees=800 if quick else 15000),
+                              NTrees=600 if quick else 15000),
         }
         # the sparse-ranges protocol (specs/SftpIO/Sparse.tla)
         alts = [129] if quick else [127, 128, 129, 257]
